@@ -96,7 +96,7 @@ def clean_stream_obligations(eng):
             for h2 in (True, False):
                 s2 = st_h.fork(); tag = f"__l{next(_calls)}"
                 rd2, buf2 = mk_p1reader(s2, h2, tag=tag, eng=e)
-                s2.heap[rd.oid] = (s2.heap[rd2.oid][0], s2.heap[rd2.oid][1]); del s2.heap[rd2.oid]
+                adopt(s2, rd, rd2)
                 s2.ghost["delivered"] = SInt(fresh("delivered", I))
                 gp = p1_view(s2, rd)["gp"]; s2.pc.append(clean_at(gp)); s2.ghost["head_pos"] = gp          # instance of the stream hypotheses at the line about to be read
                 outs.append(s2)
@@ -181,7 +181,7 @@ def resync_obligations(eng):
             for h2 in (True, False):
                 s2 = st_h.fork(); tag = f"__l{next(_calls)}"
                 rd2, buf2 = mk_p1reader(s2, h2, tag=tag, eng=e)
-                s2.heap[rd.oid] = (s2.heap[rd2.oid][0], s2.heap[rd2.oid][1]); del s2.heap[rd2.oid]
+                adopt(s2, rd, rd2)
                 s2.ghost["delivered"] = SInt(fresh("delivered", I))
                 gp = p1_view(s2, rd)["gp"]; s2.ghost["head_pos"] = gp
                 le_buf = S.FIDX(G, LFb, gp, gt1)
